@@ -9,6 +9,7 @@ from vf.world.pipe import W
 
 PART = {}
 H = "vf.harness.C02:"
+KF_PEROXIDE = "C02-given-peroxide-rewritten"
 
 ENCODES = pc.ENCODES_PIPE
 STUBS = pc.STUBS_PIPE
@@ -54,9 +55,13 @@ def h_main(jC: int, jH: int, jO: int, jq: int, qC: int, qH: int, qO: int, qq: in
             return False
         for s in (0, 1):
             have = po[s].split(".")
-            for t in pi[s].split("."):
+            for pos, t in enumerate(pi[s].split(".")):
                 if t in have:
                     have.remove(t)
+                elif s == 1 and t == "OO" and pos >= 1 and kf.active(KF_PEROXIDE):
+                    # known finding: a given '.OO' on the product side is rewritten into 2 water + [H].[H]
+                    # (specified deviation: only that molecule may be missing)
+                    continue
                 else:
                     return False
             for t in have:
